@@ -288,6 +288,25 @@ def prime_call(desc, root, opts):
         return objs, exn_name(e)
 
 
+def apply_history(desc, root, ids_s, ids_d, opts):
+    """What happened in this process before the observed call: a priming call with the caller's own objects, and / or
+    an earlier deep comparison of the same paths followed by a content change that keeps size and mtime."""
+    import signac
+
+    objs, primed = None, None
+    if desc.get("prime"):
+        objs, primed = prime_call(desc, root, opts)
+    if desc.get("deep_history"):
+        do_call(desc, root, ids_s, ids_d, opts)
+        for side, sp, rel, data in desc["deep_history"]:
+            job = signac.get_project(os.path.join(root, side)).open_job(sp)
+            st = os.stat(job.fn(rel))
+            with open(job.fn(rel), "wb") as fh:
+                fh.write(data.encode("latin-1"))
+            os.utime(job.fn(rel), ns=(st.st_atime_ns, st.st_mtime_ns))
+    return objs, primed
+
+
 def do_call(desc, root, ids_s, ids_d, opts, objs=None):
     """Run the real call with fresh handles; returns the exception class name or None."""
     import signac
@@ -415,19 +434,7 @@ def run_scenario(desc, prop):
         order_d = [j.id for j in signac.get_project(os.path.join(main, "dst"))]
         group_ids = [j.id for j in next(iter(signac.get_project(os.path.join(main, "src")).groupby("a")), (None, []))[1]] \
             if (opts.get("selection") or [None])[0] == "groupby" else []
-        objs, primed = None, None
-        if desc.get("prime"):
-            objs, primed = prime_call(desc, main, opts)       # before the "before" snapshot
-        if desc.get("deep_history"):
-            # an earlier deep comparison of the same paths in this process, then a content change that keeps size
-            # and mtime (filecmp remembers verdicts by path, size and mtime)
-            do_call(desc, main, ids_s, ids_d, opts)
-            for side, sp, rel, data in desc["deep_history"]:
-                job = signac.get_project(os.path.join(main, side)).open_job(sp)
-                st = os.stat(job.fn(rel))
-                with open(job.fn(rel), "wb") as fh:
-                    fh.write(data.encode("latin-1"))
-                os.utime(job.fn(rel), ns=(st.st_atime_ns, st.st_mtime_ns))
+        objs, primed = apply_history(desc, main, ids_s, ids_d, opts)       # before the "before" snapshot
         excl_before = list(objs[2]) if objs is not None and isinstance(objs[2], list) else None
         s0, d0, ok0 = observe(main, order_s, order_d)
         exn1 = do_call(desc, main, ids_s, ids_d, opts, objs)
@@ -449,8 +456,7 @@ def run_scenario(desc, prop):
         if ref_opts is not None:
             rdir = os.path.join(root, "ref")
             build_pair(desc, rdir)
-            if desc.get("prime"):
-                prime_call(desc, rdir, ref_opts)              # same history; the companion call uses a fresh instance
+            apply_history(desc, rdir, ids_s, ids_d, ref_opts)     # same history; the companion call uses fresh objects
             rs0, rd0, rok0 = observe(rdir, order_s, order_d)
             same_pre = (strip_order(rs0) == strip_order(s0) and strip_order(rd0) == strip_order(d0))
             exnr = do_call(desc, rdir, ids_s, ids_d, ref_opts)
@@ -1172,7 +1178,7 @@ def core_clash_cases():
                         for entry in ("Project.sync", ["Job.sync", {"a": 0}, {"a": 0}]):
                             sfiles, dfiles = {"inner/" + name: ['{"who": "src"}', 1000], "inner/c": ["C", 1000]}, {"inner/c": ["C", 1000]}
                             if kind == "conflict":
-                                dfiles["inner/" + name] = ['{"who": "dst"}', 1000]
+                                dfiles["inner/" + name] = ['{"who": "dst"}', 2000]
                             elif kind == "same":
                                 dfiles["inner/" + name] = ['{"who": "src"}', 1000]
                             elif kind == "in_leftonly_dir":
